@@ -270,7 +270,7 @@ impl Check for C06 {
 
     fn run(&self, p: &Params, tape: &mut Tape, ctx: &mut Ctx) {
         crate::icd::ALLOW_NON_FINITE.with(|a| a.set(true));
-        let opts = StreamOpts { max_msgs: 6, permute_pointers: true, gaps: true, max_gates: 200, t31_percent: 70 };
+        let opts = StreamOpts { max_msgs: 6, permute_pointers: true, gaps: true, max_gates: 200, t31_percent: 70, extreme_halfwords: 0 };
         // ---- the stored object and the transport faults
         let mut notes: Vec<String> = Vec::new();
         let mut short_at = None;
